@@ -25,6 +25,10 @@ from harness import gen_template as G
 
 FEATURES = ("call-in-call-expr-args", "return-in-buffering-def", "caller-in-def-nested-in-call",
             "decorated-def-in-call")
+# features whose defect was repaired in /repo (0522f73, d4e81ab): the generator no longer keeps away from them - they are
+# part of the main streams - and a violation they explain is NOT a recorded finding any more; their dedicated streams
+# stay as regression streams (a revert of the fix is found there first)
+REPAIRED = ("caller-in-def-nested-in-call", "decorated-def-in-call")
 
 
 class Knobs(G.Knobs):
@@ -42,6 +46,7 @@ class Knobs(G.Knobs):
                         "cont": 0.1})
         base.update(kw)
         G.Knobs.__init__(self, **base)
+        self.allow = tuple(self.allow) + tuple(f for f in REPAIRED if f not in self.allow)
         self.ret_in_buffered = "return-in-buffering-def" in self.allow
         self.caller_in_call_expr = "call-in-call-expr-args" in self.allow
 
